@@ -170,13 +170,14 @@ def real_folder_saves(snaps):
     try:
         for ids in snaps:
             n = len(ids)
-            series = np.array(ids, dtype=float).reshape(n, 1, 1, 1)
+            e = 1 + (ids[0] // 1000) % 2 if ids else 1          # runs with an odd id have an ensemble of 2: another trailing shape
+            series = np.repeat(np.array(ids, dtype=float).reshape(n, 1, 1, 1), e, axis=1)
             params = np.array(ids, dtype=float).reshape(n, 1)
             jp.save_calibrator_state(folder, np.zeros((2, 1)), np.ones(1), np.zeros((1, 1)), 1, 1, 1, None, False, None, 0,
                                      np.random.default_rng(0).bit_generator.state, "m", "s", "l", len(snaps), n, 1,
                                      params, np.array(ids, dtype=float), series, np.zeros(n, dtype=int), np.zeros(n, dtype=int))
         got = jp.load_calibrator_state(folder, 0)
-        return [int(x) for x in got[17][:, 0]], [int(x) for x in got[19].reshape(-1)]
+        return [int(x) for x in got[17][:, 0]], [int(x) for x in got[19][:, 0].reshape(-1)]
     finally:
         shutil.rmtree(folder, ignore_errors=True)
 
@@ -190,7 +191,7 @@ def run(chk: Check):
                 "non-trivial = script with a restore after >= 2 batches, or a folder-logic case with >= 2 saves")
     chk.trusted_base = ["Lean 4.33 kernel", "json (repr round trip), pickle, h5py, sqlite3 as libraries — their round trips are checked here on samples, not proved",
                         "harness/vp/deep.py (what 'observable state' means: recursive __dict__ with numpy-aware equality)"]
-    chk.assumptions = ["theorem load_save needs the folder's series rows to be a prefix of the current ones (same run); a different run's folder is the recorded known finding",
+    chk.assumptions = ["theorem load_save is unconditional in what the folder held before (the series file is appended to only when its rows are a prefix of the current ones)",
                        "RLScheduler cannot be pickled at all (known finding), so 'both scheduler kinds' holds for round-robin only"]
     chk.proof_stage(PROP_FILE)
     contract_backends(chk, rng, 20000 if chk.tier == "quick" else 200000)
@@ -232,7 +233,12 @@ def run(chk: Check):
     reqs = [f"ckpt.saves {len(s)} " + " ".join(f"{k} {len(ids)} " + " ".join(map(str, ids)) + f" {len(ids)} " + " ".join(map(str, ids)) for k, ids in enumerate(s)) for s in cases]
     answers = lean_run(reqs)
     for snaps, ans in zip(cases, answers):
-        rows, ser = real_folder_saves(snaps)
+        try:
+            rows, ser = real_folder_saves(snaps)
+        except Exception as e:  # noqa: BLE001
+            chk.case(["folder", snaps], len(snaps) >= 2, {"saves_series_ids": snaps, "raised": type(e).__name__})
+            chk.fail(f"saving into a folder that holds another checkpoint raised {type(e).__name__}: {str(e)[:100]}", {"case": {"kind": "folder", "snaps": snaps}}, signature=SIG_STALE)
+            continue
         impl = f"params {len(snaps) - 1} rows {','.join(map(str, rows))} series {','.join(map(str, ser))}"
         chk.case(["folder", snaps], len(snaps) >= 2, {"saves_series_ids": snaps, "loaded_series_ids": ser})
         same_run_prefix = all(a == b[:len(a)] for a, b in zip(snaps, snaps[1:]))
@@ -254,7 +260,10 @@ def replay(path: Path) -> int:
         if not c:
             continue
         if c["kind"] == "folder":
-            rows, ser = real_folder_saves(c["snaps"]); fails = ser != c["snaps"][-1]
+            try:
+                rows, ser = real_folder_saves(c["snaps"]); fails = ser != c["snaps"][-1]
+            except Exception:  # noqa: BLE001
+                fails = True
         elif c["kind"] == "script":
             c["cfg"]["lineup"] = [tuple(x) for x in c["cfg"]["lineup"]]
             f, k = op_script(None, random.Random(0), c["cfg"], [tuple(o) for o in c["script"]]); fails = bool(f or k)
